@@ -159,6 +159,7 @@ ASSERT_UNCHANGED = {
 }
 ONE_LINERS = {
     "__and__": (["self", "other"], "return Operator('&', [self, other], src_loc_at=1)"),
+    "__or__": (["self", "other"], "return Operator('|', [self, other], src_loc_at=1)"),
     "__len__": (["self"], "return self.shape().width"),
     "eq": (["self", "value"], "return Assign(self, value, src_loc_at=src_loc_at + 1)"),
 }
@@ -679,6 +680,8 @@ class PE:
                     return V(f"({BINOPS[type(n.op)]} {a.term} {b.term})", "Z")
                 if a.ty == "expr" and b.ty == "expr" and isinstance(n.op, ast.BitAnd):
                     return V(f"(EOp2 OAnd {a.term} {b.term})", "expr")       # Value.__and__ (ONE_LINERS)
+                if a.ty == "expr" and b.ty == "expr" and isinstance(n.op, ast.BitOr):
+                    return V(f"(EOp2 OOr {a.term} {b.term})", "expr")        # Value.__or__ (ONE_LINERS)
             fail(n, "binary operator")
         if isinstance(n, ast.Compare):
             return self.ev_compare(n)
